@@ -20,6 +20,17 @@ CLAIMS = {
   ref="§5 C08"),
 }
 
+CLAIMS["C11"] = dict(
+  level="other",
+  technique="static analysis: typestate/must-pass-through on the SSA CFG (MakeRaw→defer Restore pairing), backward value slices, dominance, table agreement; repeated per GOOS in the thorough tier",
+  text="Decides, for every path of the current source, the pairing and ordering facts the property rests on: MakeRaw/defer Restore typestate with the same fd and state in every caller, the State snapshot is taken before modification and written back by Restore, deferred default-cursor-style print before the main loop, AcceptLine dominates every Accept and ends with CR LF, no nil-error dereference on the editor failure path; the missing fresh-row move on the panic exit is reported as a known finding. The terminal's resulting state itself is not decided.",
+  ref="§5 C11")
+CLAIMS["C13"] = dict(
+  level="other",
+  technique="static analysis: dominating-guard facts on the condition stack, must-depend (data+control dependence) slices, only-writer and argument-flow checks over go/ssa",
+  text="Decides that every handler effect of the inputrc parser is dominated by the top-of-stack test, that the pushed/toggled condition depends on the enclosing level (violated on the pinned tree: known finding, pinned tests expect the leak), that keymap/sequence/action/macro flow unswapped into the bind table, and the $if form ↔ option field table. The full iff over all programs (scanner classification of tokens) is not decided.",
+  ref="§5 C13")
+
 NA_REASONS = {
  "C15": "Cycle coverage is arithmetic over a grid whose shape is computed at run time from candidate widths and terminal width; no pairing/ownership/ordering/table clause is a necessary condition, and a bounds proof of rows[y][x] needs the same run-time shape invariants. A check would be a brittle proxy (DESIGN.md §5 C15, §8).",
 }
